@@ -56,9 +56,10 @@ type selset struct {
 const avoidUntypedInlineUnderWrapped = false
 
 type fragDef struct {
-	name string
-	sc   scope
-	body *selset
+	private bool // holds one duplicate occurrence; never spread anywhere else
+	name    string
+	sc      scope
+	body    *selset
 }
 
 type qgen struct {
@@ -70,6 +71,8 @@ type qgen struct {
 	vars      map[string]string
 	varOrder  []string
 	sets      []*selset
+	dupIn     int // further occurrences of a response key that are let in
+	dupOut    int // further occurrences kept out by @skip / @include
 }
 
 func tk(text string, kind gen.TokKind) gen.Tok { return gen.Tok{Text: text, Kind: kind} }
@@ -110,9 +113,40 @@ func (g *qgen) intValue(required bool) []gen.Tok {
 	return []gen.Tok{num(g.r.Pick([]string{"0", "1", "-2", "37"}))}
 }
 
+// boolDirective: a @skip / @include that lets the selection in (include) or keeps it out, literal or driven by the
+// variables $on (= true) and $off (= false) that the harness passes with every executing request.
+func (g *qgen) boolDirective(include bool) []gen.Tok {
+	mk := func(dir string, val []gen.Tok) []gen.Tok {
+		return append(append([]gen.Tok{p("@"), nm(dir), p("("), nm("if"), p(":")}, val...), p(")"))
+	}
+	lit := func(b bool) []gen.Tok { return []gen.Tok{nm(fmt.Sprint(b))} }
+	k := g.r.Intn(4)
+	switch {
+	case k == 0:
+		return mk("include", lit(include))
+	case k == 1:
+		return mk("skip", lit(!include))
+	case (k == 2) == include:
+		// include: @include(if: $on) ; exclude: @skip(if: $on)
+		if include {
+			return mk("include", []gen.Tok{p("$"), g.useVar("on", "Boolean!")})
+		}
+		return mk("skip", []gen.Tok{p("$"), g.useVar("on", "Boolean!")})
+	default:
+		if include {
+			return mk("skip", []gen.Tok{p("$"), g.useVar("off", "Boolean!")})
+		}
+		return mk("include", []gen.Tok{p("$"), g.useVar("off", "Boolean!")})
+	}
+}
+
 func (g *qgen) directive() []gen.Tok {
 	if !g.r.Chance(1, 6) {
 		return nil
+	}
+	if g.exec {
+		// executing documents: mostly letting in, sometimes keeping the selection out (then nothing below it runs)
+		return g.boolDirective(!g.r.Chance(1, 4))
 	}
 	if !g.exec && g.r.Chance(1, 3) {
 		return []gen.Tok{p("@"), nm("include"), p("("), nm("if"), p(":"), p("$"), g.useVar("t", "Boolean!"), p(")")}
@@ -206,7 +240,7 @@ func (g *qgen) spread(sc scope, depth int) *item {
 	ws := want[g.r.Intn(len(want))]
 	var fd *fragDef
 	for _, f := range g.frags {
-		if f.sc == ws && g.r.Chance(1, 2) {
+		if f.sc == ws && !f.private && g.r.Chance(1, 2) {
 			fd = f
 			break
 		}
@@ -249,32 +283,90 @@ func (g *qgen) selsetW(sc scope, depth int, inFrag bool, wrapped bool) *selset {
 			s.items = append(s.items, g.field(sc, depth, inFrag))
 		}
 	}
-	if g.exec && g.r.Chance(1, 3) {
-		// merged duplicate of a leaf field of this very selection set (same response key, same field, same arguments)
-		var cands []*item
-		for _, it := range s.items {
-			if it.leaf {
-				cands = append(cands, it)
-			}
+	if g.exec && sc != scUnion && g.r.Chance(2, 5) {
+		g.duplicates(s, sc)
+	}
+	return s
+}
+
+// duplicates adds one or two further occurrences of a leaf field of this selection set under the same response key (same field,
+// same arguments): directly, inside an inline fragment (typed or not) or inside a named fragment; before or after the original;
+// let in or kept out by a literal or variable-driven @skip / @include on the occurrence itself or on the fragment around it.
+// The error of the merged field must name exactly the occurrences that are let in, in collection order: those get the mark
+// "F:<key>#<n>" with n their order in this selection set; occurrences kept out get no mark.
+func (g *qgen) duplicates(s *selset, sc scope) {
+	var cands []*item
+	for _, it := range s.items {
+		if it.leaf {
+			cands = append(cands, it)
 		}
-		if len(cands) > 0 {
-			orig := cands[g.r.Intn(len(cands))]
-			dup := &item{head: append([]gen.Tok{}, orig.head...), key: orig.key}
-			switch g.r.Intn(3) {
-			case 0:
-				s.items = append(s.items, dup)
-			case 1:
-				if wrapped && avoidUntypedInlineUnderWrapped {
-					s.items = append(s.items, dup)
+	}
+	if len(cands) == 0 {
+		return
+	}
+	orig := cands[g.r.Intn(len(cands))]
+	type occ struct {
+		at    *item // the item of s.items that carries the occurrence
+		field *item // the field occurrence itself
+		in    bool
+	}
+	occs := []occ{{orig, orig, true}}
+	for n := g.r.Range(1, 2); n > 0; n-- {
+		dup := &item{head: append([]gen.Tok{}, orig.head...), key: orig.key}
+		in := g.r.Chance(1, 2)
+		ownDirective := g.r.Chance(1, 2)
+		var outer []gen.Tok // directive on the fragment around the occurrence
+		if ownDirective {
+			if !in || g.r.Chance(1, 2) {
+				dup.head = append(dup.head, g.boolDirective(in)...)
+			}
+		} else if !in || g.r.Chance(1, 2) {
+			outer = g.boolDirective(in)
+		}
+		at := dup
+		switch k := g.r.Intn(4); {
+		case ownDirective && k == 0:
+			// bare
+		case k <= 1:
+			at = &item{head: append([]gen.Tok{p("...")}, outer...), sub: &selset{sc: sc, items: []*item{dup}}}
+		case k == 2:
+			at = &item{head: append([]gen.Tok{p("..."), nm("on"), nm(sc.typeName())}, outer...), sub: &selset{sc: sc, items: []*item{dup}}}
+		default:
+			fd := &fragDef{private: true, name: fmt.Sprintf("D%d", len(g.frags)+1), sc: sc, body: &selset{sc: sc, items: []*item{dup}}}
+			g.frags = append(g.frags, fd)
+			at = &item{head: append([]gen.Tok{p("..."), nm(fd.name)}, outer...)}
+		}
+		// position: before the original or at the end
+		if g.r.Chance(1, 3) {
+			for i, it := range s.items {
+				if it == orig {
+					s.items = append(s.items[:i], append([]*item{at}, s.items[i:]...)...)
 					break
 				}
-				s.items = append(s.items, &item{head: []gen.Tok{p("...")}, sub: &selset{sc: sc, items: []*item{dup}}})
-			default:
-				s.items = append(s.items, &item{head: []gen.Tok{p("..."), nm("on"), nm(sc.typeName())}, sub: &selset{sc: sc, items: []*item{dup}}})
+			}
+		} else {
+			s.items = append(s.items, at)
+		}
+		occs = append(occs, occ{at, dup, in})
+		if in {
+			g.dupIn++
+		} else {
+			g.dupOut++
+		}
+	}
+	n := 0
+	for _, it := range s.items {
+		for _, o := range occs {
+			if o.at == it {
+				if o.in {
+					o.field.head[0].Mark = fmt.Sprintf("F:%s#%d", orig.key, n)
+					n++
+				} else {
+					o.field.head[0].Mark = ""
+				}
 			}
 		}
 	}
-	return s
 }
 
 func flatten(s *selset, open gen.Tok, out []gen.Tok) []gen.Tok {
